@@ -230,22 +230,57 @@ func runConcScenarios(t *testing.T, c *Collector, scs []*ConcScenario) {
 		c.finish()
 		os.Exit(0)
 	}
-	for si, sc := range scs {
-		curScenario = sc
-		if c.expired() {
-			break
-		}
-		e := &Explorer{t: t, c: c, sc: sc, outcomes: map[string]int64{}, shard: c.job.Shard, nshards: c.job.NShards}
-		// rotate ownership so that shards get different subtrees of different scenarios
-		e.unit = si
-		e.explore(nil, nil, 0)
-		totalOutcomes += len(e.outcomes)
-		c.count("distinct_outcomes", int64(len(e.outcomes)))
-		c.count("execs:"+sc.Name, e.execs)
-		c.count("scenarios", 1)
-		if c.res.InfraError != "" {
-			return
+	// Iterative context bounding: in the thorough tier every scenario is
+	// first explored completely with the quick tier's bound, then all of them
+	// with one preemption more, and so on, so that a run ended by its time
+	// budget has covered all scenarios uniformly and can say which bound it
+	// completed for all of them.
+	maxBound := 0
+	for _, sc := range scs {
+		if sc.Bound > maxBound {
+			maxBound = sc.Bound
 		}
 	}
+	startDelta := 0
+	if c.job.Tier != "quick" {
+		startDelta = 1
+	}
+	completed := -1
+	for delta := startDelta; delta >= 0; delta-- {
+		pass := true
+		for si, sc := range scs {
+			curScenario = sc
+			if c.expired() {
+				pass = false
+				break
+			}
+			run := *sc
+			run.Bound = sc.Bound - delta
+			if run.Bound < 0 {
+				run.Bound = 0
+			}
+			e := &Explorer{t: t, c: c, sc: &run, outcomes: map[string]int64{}, shard: c.job.Shard, nshards: c.job.NShards}
+			// rotate ownership so that shards get different subtrees of different scenarios
+			e.unit = si
+			e.explore(nil, nil, 0)
+			totalOutcomes += len(e.outcomes)
+			c.count("distinct_outcomes", int64(len(e.outcomes)))
+			if delta == 0 {
+				c.count("execs:"+sc.Name, e.execs)
+				c.count("scenarios", 1)
+			}
+			if c.res.InfraError != "" {
+				return
+			}
+			if e.capped || c.expired() {
+				pass = false
+			}
+		}
+		if pass {
+			completed = maxBound - delta
+			c.res.Notes = append(c.res.Notes, fmt.Sprintf("shard %d completed every scenario with its bound minus %d (max preemption bound %d)", c.job.Shard, delta, maxBound-delta))
+		}
+	}
+	_ = completed
 	c.res.Engine = "A (controlled cooperative scheduler in a synctest bubble; stateless DFS with preemption bounding over lock acquisitions and file-system calls of the real code)"
 }
